@@ -21,7 +21,7 @@ package main
 // to draw again). The server refuses nothing - unless the FIRST exponent of the stream gives g^b in {0, 1, dh_prime-1}
 // (b = 0, b = the order of g, b = dh_prime - 1): then a client that sends this g_b is refused by every conformant
 // server, which is the documented exclusion of hs_agree (`gbRange`), not a violation; what is asked then is that the
-// client does not report success, holds and stores no key, and - when the server drops the connection - that its
+// client does not report success, does not switch to encrypted mode, stores no session, and - when the server drops the connection - that its
 // CreateConnection ends with an error instead of waiting for ever.
 
 import (
@@ -105,16 +105,16 @@ func c06JudgeDraw(run *hsRun, c *hsCase, refusal string, more []byte, clock stri
 		// the client sent the g_b of its first draw, which no conformant server may accept (documented exclusion): it
 		// must not take the exchange for completed, and must notice a connection that was dropped
 		what := fmt.Sprintf("%s: g_b = %s, which the server had to refuse (%s)", drawn, gB.String(), refusal)
-		if run.Outcome == "ok" || run.Enc || len(run.Stores) != 0 || len(run.AuthKey) != 0 {
-			add("%s; yet the client ended with %s, encrypted=%v, a key of %d bytes, %d stored session(s)", what, run.Outcome, run.Enc, len(run.AuthKey), len(run.Stores))
+		if run.Outcome == "ok" || run.Enc || len(run.Stores) != 0 {
+			add("%s; yet the client ended with %s, encrypted=%v, %d stored session(s)", what, run.Outcome, run.Enc, len(run.Stores))
 		}
 		if refusal == "close" && !strings.HasPrefix(run.Outcome, "err:") {
 			add("%s and dropped the connection; CreateConnection ended with %q, not with an error", what, run.Outcome)
 		}
 		return bad
 	}
-	for _, b := range c06JudgeRunCore(run, "notfound", clock) {
-		add("%s: %s", drawn, b)
+	if bs := c06JudgeRunCore(run, "notfound", clock); len(bs) > 0 {
+		add("%s: %s", drawn, strings.Join(bs, "; "))
 	}
 	return bad
 }
@@ -190,7 +190,7 @@ func c06DrawGen(g *G, next func() *rsa.PrivateKey, groups []c06Group) {
 		emit("b-2^2047", c, "silent", ordinary(2), "draw:b-huge")
 	}
 	for i, m := range []struct {
-		name    string
+		name     string
 		mul, add int64
 	}{{"order+1", 1, 1}, {"dh_prime", 2, 1}, {"dh_prime+1000", 2, 1001}, {"3*order+2", 3, 2}} {
 		c := fresh(i)
